@@ -389,6 +389,19 @@ func (fr *Frame) libModel(fn *ssa.Function, full string, args []Val, st *State, 
 		v := c.define("be.u64", app(SInt, "be64.dec", c.bytesContent(st, first8)))
 		c.assumeG(g, c.typeConstraint(types.Typ[types.Uint64], v))
 		return done(tv(v))
+	case full == "encoding/binary.bigEndian.Uint32" || full == "(encoding/binary.bigEndian).Uint32" ||
+		full == "encoding/binary.bigEndian.Uint16" || full == "(encoding/binary.bigEndian).Uint16":
+		w, nb, ty := "32", 4, types.Typ[types.Uint32]
+		if strings.HasSuffix(full, "Uint16") {
+			w, nb, ty = "16", 2, types.Typ[types.Uint16]
+		}
+		c.declareBE(w)
+		s := T(1)
+		cur = fr.mayPanicIf(cur, mk(SBool, fmt.Sprintf("(< (s.len %s) %d)", s.S, nb)), st, "index", pos, "BigEndian.Uint"+w+": short slice")
+		firstN := mk(SSlice, fmt.Sprintf("(mk-slice (s.arr %s) (s.off %s) %d)", s.S, s.S, nb))
+		v := c.define("be.u"+w, app(SInt, "be"+w+".dec", c.bytesContent(st, firstN)))
+		c.assumeG(g, c.typeConstraint(ty, v))
+		return done(tv(v))
 	case full == "encoding/binary.bigEndian.PutUint64" || full == "(encoding/binary.bigEndian).PutUint64":
 		c.declareFun("be.put64", []Sort{ArrSort(SInt, SInt), SInt, SInt}, ArrSort(SInt, SInt))
 		c.declareFun("be.u64", []Sort{ArrSort(SInt, SInt), SInt}, SInt)
